@@ -8,6 +8,15 @@ sys.path.insert(0, HERE)
 from tools.claims import CLAIMS, NOT_APPLICABLE  # noqa: E402
 
 props = [json.loads(l)["id"] for l in open(os.path.join(HERE, "properties.jsonl"))]
+BOUNDED = {"C01", "C02", "C03", "C04", "C05", "C06", "C07", "C08", "C09", "C10", "C11", "C14", "C15", "C16", "C17", "C18", "C19", "C20"}   # = checks.run.BOUNDED_ALWAYS
+BASE_T = ("contract-based deductive verification of the real code: sidecar contracts (pre/postconditions, loop invariants, frame conditions, "
+          "ghost call histories, lemmas) on the functions of /repo; verification conditions generated from the AST of /repo on every run by "
+          "/verif/pyvc and discharged function by function (callers against callee contracts) by z3 5.1 through a cascade of weakenings, cvc5 "
+          "for pure string lemmas; a refuted obligation, or one that was discharged on the pinned tree (baseline/<id>.json) and no longer is, "
+          "is the VIOLATION")
+STANDIN_T = ("; alongside, the bounded stand-in replay/%s.py (enumeration of small scenarios on the real code with an oracle from the "
+             "property statement, 20 s quick / 120 s thorough) runs -- labelled bounded in the evidence (coverage.bounded_checks), never "
+             "counted in obligations/discharged -- and supplies the failing input replayed for a violation")
 checks = []
 for pid in props:
     c = CLAIMS.get(pid)
@@ -22,7 +31,7 @@ for pid in props:
         engine="pyvc",
         level_claimed=dict(category=c.get("category", "proof"), text=c["text"], design_ref=c.get("design_ref", "DESIGN.md section 5 (%s)" % pid)),
         level_note=c["note"],
-        technique=c.get("technique", "contract-based deductive verification: VCs generated from the real AST of /repo against sidecar contracts, discharged by z3 (cvc5 second back end)"),
+        technique=c.get("technique", BASE_T + (STANDIN_T % pid if pid in BOUNDED else "; no bounded stand-in is run for this property (its harness needs real threads)")),
     ))
 na = [dict(property_id=p, reason=NOT_APPLICABLE[p]) for p in props if p not in CLAIMS]
 man = dict(
